@@ -140,6 +140,7 @@ impl Generator
 		self.local_parameters.clear();
 		self.local_variables.clear();
 		self.local_labeled_blocks.clear();
+		self.used_intrinsics.clear();
 
 		Ok(())
 	}
